@@ -195,7 +195,7 @@ package meta
 //@   mode int
 //@   property C14 C11
 //@   requires wfEval(y)
-//@   assigns y.pos, y.stack, y.lastErr, elems(y.stack)
+//@   assigns y.pos, y.stack, y.lastErr, y.closed, elems(y.stack)
 //@   decreases len(y.expr) - y.pos
 //@   loop 1 invariant wfEval(y) && y.pos >= old(y.pos) && (backing(y.stack) == old(backing(y.stack)) || fresh(y.stack))
 //@   loop 1 decreases len(y.expr) - y.pos
